@@ -960,6 +960,11 @@ func (*MemFS) ToSysStat(info fs.FileInfo) avfs.SysStater {
 func (vfs *MemFS) Truncate(name string, size int64) error {
 	op := "truncate"
 
+	if size < 0 && vfs.OSType() != avfs.OsWindows {
+		// truncate(2) rejects a negative length before looking at the name.
+		return &fs.PathError{Op: op, Path: name, Err: vfs.err.InvalidArgument}
+	}
+
 	_, child, _, err := vfs.searchNode(name, slmEval)
 	if err != vfs.err.FileExists {
 		if vfs.OSType() == avfs.OsWindows {
